@@ -82,6 +82,10 @@ def main():
         cn = ctx_name(e, a[1])
         cur["events"].append(("resolve", which, cn))
         k = sum(1 for x in cur["events"] if x[0] == "resolve" and x[1] == which) - 1
+        if which not in cur["results"]:
+            # an evaluation of something that is not one of this node's five sub-expressions (a grandchild): logged above, which
+            # makes the trace deviate; give it a value so that the path can be followed to its end
+            return ("enum", "Result::Ok", [("enum", "Value::Bool", [z3.Bool("grandchild_%s_%d" % (re.sub(r"\W+", "_", str(which)), k))])])
         r = cur["results"][which]
         return r[k] if isinstance(r, list) else r
 
@@ -183,6 +187,21 @@ def main():
         (r"^<std::slice::Iter<'_, (?:Value|Expression|IdedExpr)> as Iterator>::next$", m_iter_next),
         (r"^<Value as Clone>::clone$", m_value_clone),
         (r"^std::result::Result::<\(\), Infallible>::expect$", m_expect),
+        (r"^Vec::<(?:Expression|IdedExpr)>::len$", lambda e, m, a: len((lambda v: v[1] if isinstance(v, tuple) else v)(deref(e, a[0])))),
+        (r"^Vec::<(?:Expression|IdedExpr)>::is_empty$", lambda e, m, a: len((lambda v: v[1] if isinstance(v, tuple) else v)(deref(e, a[0]))) == 0),
+        (r"^<Vec<(?:Expression|IdedExpr)> as Index<usize>>::index$", lambda e, m, a: Ref(a[0].frame, a[0].local, list(a[0].proj) + [("field", 1), ("idx", a[1])])),
+        (r"^<Vec<(?:Expression|IdedExpr)> as Deref>::deref$", lambda e, m, a: a[0]),
+        (r"^core::slice::<impl \[(?:Expression|IdedExpr)\]>::len$", lambda e, m, a: len((lambda v: v[1] if isinstance(v, tuple) else v)(deref(e, a[0])))),
+        (r"^<std::string::String as Deref>::deref$", lambda e, m, a: deref(e, a[0])),
+        (r"^std::string::String::as_str$", lambda e, m, a: deref(e, a[0])),
+        (r"^<Vec<Value> as Deref>::deref$", lambda e, m, a: a[0]),
+        (r"^<std::slice::Iter<'_, Value> as IntoIterator>::into_iter$", lambda e, m, a: a[0]),
+        (r"^<Arc<Vec<Value>> as From<Vec<Value>>>::from$", lambda e, m, a: ("arc", a[0][1]) if isinstance(a[0], tuple) and a[0][0] == "vec" else ("arc", a[0])),
+        (r"^core::slice::<impl \[Value\]>::len$", lambda e, m, a: len((lambda v: v[1] if isinstance(v, tuple) else v)(deref(e, a[0])))),
+        (r"^Vec::<Value>::(?:with_capacity|new)$", lambda e, m, a: ("vec", [])),
+        (r"^Vec::<Value>::push$", lambda e, m, a: (deref(e, a[0])[1].append(a[1]), ("unit",))[1]),
+        (r"^<Vec<Value> as (?:std::convert::)?Into<Arc<Vec<Value>>>>::into$", lambda e, m, a: ("arc", a[0][1]) if isinstance(a[0], tuple) and a[0][0] == "vec" else ("arc", a[0])),
+        (r"^core::slice::<impl \[Value\]>::iter$", lambda e, m, a: ["iter", a[0], 0]),
         (r"^Vec::<Value>::is_empty$", lambda e, m, a: len((lambda v: v[1] if isinstance(v, tuple) else v)(deref(e, a[0]))) == 0),
         (r"^Vec::<Value>::len$", lambda e, m, a: len((lambda v: v[1] if isinstance(v, tuple) else v)(deref(e, a[0])))),
         (r"^<std::string::String as PartialEq<&?str>>::(?:eq|ne)$", lambda e, m, a: m_string_eq_any(e, m, a) if m.group(0).endswith("eq") else not m_string_eq_any(e, m, a)),
@@ -204,18 +223,28 @@ def main():
                 return ("enum", "Expr::List", [[("vec", [[("opid", "re%d" % j), ("enum", "Expr::Call", [[S("f%d" % j), ("None",), ("vec", [])]])] for j in range(shape_now["n"])])]])
             return ident("xs")
         if h == "init":
+            if shape_now.get("step") in ("append", "guarded append"):
+                return ("enum", "Expr::List", [[("vec", [])]])   # map / filter start from the empty list
             return ("enum", "Expr::Literal", [("enum", "Val::Boolean", [True])])
         if h == "cond":
             if shape_now["cond"] == "nsf":
                 return ("enum", "Expr::Call", [[S("@not_strictly_false"), ("None",), ("vec", [acc])]])
             return ("enum", "Expr::Literal", [("enum", "Val::Boolean", [True])])
         if h == "step":
+            lst = lambda inner: [("opid", "inner_list"), ("enum", "Expr::List", [[("vec", [inner])]])]
+            append = lambda: [("opid", "inner_append"), ("enum", "Expr::Call", [[S("_+_"), ("None",), ("vec", [acc, lst([("opid", "inner_e"), ident("e")])])]])]
+            if shape_now.get("step") == "append":          # map(x, e): @result + [e]
+                return append()[1]
+            if shape_now.get("step") == "guarded append":  # map(x, g, e) / filter(x, g): g ? @result + [e] : @result
+                return ("enum", "Expr::Call", [[S("_?_:_"), ("None",), ("vec", [[("opid", "inner_g"), ident("g")], append(), [("opid", "inner_acc2"), ident("@result")]])]])
             return ("enum", "Expr::Call", [[S("_&&_"), ("None",), ("vec", [acc, [("opid", "inner_p"), ident("p")]])]])
         return ident("@result")
 
     def box(h):
         hold = {0: [("opid", h), shape_of(h)]}
         return [[Ref(hold, 0, ())]]
+
+    undecided = []
 
     def scenario(n, errs, range_kind="list"):
         """n list elements; errs: which evaluation fails: None | ('range',) | ('init',) | ('cond', k) | ('step', k) | ('result',)"""
@@ -224,6 +253,10 @@ def main():
         eng.discriminants = dict(EXPR_DISC)
         eng.discriminants.update({"Value::" + nme: k for k, nme in enumerate(value_names)})
         eng.discriminants.update({"ControlFlow::Continue": 0, "ControlFlow::Break": 1, "Result::Ok": 0, "Result::Err": 1})
+        vsrc = open(os.path.join(repo, "antlr/src/reference.rs")).read()
+        vbody = vsrc[vsrc.index("pub enum Val {") + len("pub enum Val {"):]
+        vbody = vbody[:vbody.index("\n}")]
+        eng.discriminants.update({"Val::" + nme: k_ for k_, nme in enumerate(re.findall(r"^\s*([A-Z]\w*)\b", vbody, re.M))})
         ops_src = open(os.path.join(repo, "antlr/src/ast/operators.rs")).read()
         op_consts = dict(re.findall(r"pub const (\w+): &str = \"([^\"]*)\";", ops_src))
 
@@ -253,7 +286,8 @@ def main():
         comp = [box("range"), ("string", "x"), ("None",), ("string", "@result"), box("init"), box("cond"), box("step"), box("result")]
         expr = [3, ("enum", "Expr::Comprehension", [comp])]
         pseudo = {0: expr}
-        desc = {"elements": n, "failing": list(errs) if errs else None, "range_kind": range_kind, "loop_condition_shape": shape_now["cond"], "range_shape": shape_now.get("range", "identifier")}
+        desc = {"elements": n, "failing": list(errs) if errs else None, "range_kind": range_kind, "loop_condition_shape": shape_now["cond"], "range_shape": shape_now.get("range", "identifier"),
+                "step_shape": shape_now.get("step", "accumulate with &&")}
 
         def entry(e):
             cur.clear()
@@ -333,6 +367,9 @@ def main():
                     samples.append(dict(desc, events=[[str(y) for y in x] for x in ev]))
         try:
             eng.explore(entry, None, on_path, [])
+        except Unsupported as u:
+            # a scenario that meets an unmodelled operation is undecided (never a pass); the other scenarios are still decided
+            undecided.append("%s: %s" % (json.dumps(desc), str(u)[:160]))
         except PanicFound as p:
             failures.append(dict(desc, problems=["panic reachable: %s" % p.msg]))
         for k in ("paths", "queries", "assert_obligations"):
@@ -356,11 +393,23 @@ def main():
                 for c in [None] + [("step", k) for k in range(n)]:
                     scenario(n, c)
         shape_now["range"] = "identifier"
+        # the steps map / filter build (`@result + [e]`, `g ? @result + [e] : @result`): the step is evaluated as one sub-expression,
+        # its parts (transform, guard) are the step's own children
+        shape_now["cond"] = "true"
+        for st in ("append", "guarded append"):
+            shape_now["step"] = st
+            for n in range(0, DEPTH + 1):
+                for c in [None] + [("step", k) for k in range(n)]:
+                    scenario(n, c)
+        shape_now.pop("step", None)
         for rk in ("int", "null", "bool", "string"):
             scenario(0, None, rk)
     except Unsupported as u:
         status = 2
         print("INCONCLUSIVE: unsupported: %s" % u)
+    if undecided:
+        status = 2
+        print("INCONCLUSIVE: %d scenarios undecided, e.g. unsupported: %s" % (len(undecided), undecided[0][:300]))
     if failures:  # a counterexample stands even if a later scenario met an unmodelled call (it is replayed natively anyway)
         status = 1
     out = {"functions_encoded": sorted(stats["functions"]), "scenarios": stats["scenarios"], "paths": stats["paths"], "paths_proved": stats["proved"],
